@@ -401,6 +401,11 @@ var invokeHandlers = map[string]func(f *Frame, ns *nodeState, x *ssa.Call, recv 
 func (f *Frame) externalCall(ns *nodeState, x *ssa.Call, fn *ssa.Function, args []Val) []Val {
 	ex := f.ex
 	name := originOf(fn).String()
+	if inlineExternals[name] && fn.Blocks != nil {
+		// tiny library functions whose source is part of the build are executed like module code
+		ex.external[name+" (library source inlined)"] = true
+		return f.inlineCall(ns, x, fn, args, nil)
+	}
 	if h, ok := externals[name]; ok {
 		ex.external[name] = true
 		return h(f, ns, x, fn, args)
@@ -419,6 +424,10 @@ func (f *Frame) externalCall(ns *nodeState, x *ssa.Call, fn *ssa.Function, args 
 	}
 	ex.fail("call of external function %s without an assumed contract", name)
 	return nil
+}
+
+var inlineExternals = map[string]bool{
+	"github.com/go-spatial/geom/slippy.NewTile": true,
 }
 
 var pureExternalPrefixes = []string{"fmt.Sprintf", "fmt.Sprint", "fmt.Errorf", "fmt.Fprintf", "fmt.Printf", "fmt.Println", "log.Printf", "log.Println", "log.Print",
